@@ -209,6 +209,9 @@ def run(sc, workdir):
             kmesh = mesh[2:2 + dn.npars]
             mev["weights"] = [fvec(w) for _, _, w in kmesh]
             mev["lens"] = [len(w) for _, _, w in kmesh]
+            mev["values"] = [fvec(d) for _, d, _ in kmesh]
+            mev["limits"] = [[fstr(p.limits[0]), fstr(p.limits[1])] if p.polydisperse else ["-inf", "inf"]
+                             for p in dn.call_parameters[2:2 + dn.npars]]
             res = {"refused": False, "raised": False, "error": ""}
             Iq = call_kernel(dk, dict(pdp))
             F1, F2, reff, vshell, ratio = call_Fq(dk, dict(pdp, radius_effective_mode=mode))
